@@ -90,6 +90,19 @@ theorem Boring.of_toState {s s' : RState} (h : s'.toState = s.toState) (hg : s'.
 
 /-! ### the boring functions -/
 
+theorem Boring.of_wakeFrame {s s' : RState} (h : WakeFrame s s') : Boring s s' :=
+  Boring.of_eq h.retained h.wills h.ghost
+
+theorem wakeParked_boring {s s' : RState} {logs : List Nat} (h : wakeParked s logs = .ok s') : Boring s s' :=
+  Boring.of_wakeFrame (wakeParked_wakeFrame h)
+
+theorem wakeTurnMoved_boring {s s' : RState} (h : wakeTurnMoved s = .ok s') : Boring s s' :=
+  Boring.precomp (Boring.of_wakeFrame (wakeTurnMoved_wakeFrame h)) rfl rfl rfl
+
+theorem noteTurn_boring (s0 s1 : RState) (req : DataRequest) : Boring s1 (noteTurn s0 s1 req) := by
+  obtain ⟨tm, e⟩ := noteTurn_eq s0 s1 req
+  rw [e]; exact Boring.of_eq rfl rfl rfl
+
 theorem reschedule_boring {s s' : RState} {id : Nat} {r : SchedReason} (h : reschedule s id r = .ok s') :
     Boring s s' := by
   have := reschedule_data h
@@ -220,21 +233,13 @@ theorem datalogClean_retained (d : DataLog) (id : Nat) : (datalogClean d id).1.r
 
 theorem handleDisconnection_boring {s s' : RState} {id : Nat} {r : Option String}
     (h : handleDisconnection s id r = .ok s') : Boring s s' := by
-  refine ⟨?_, handleDisconnection_lastWills h, ?_⟩
-  · unfold handleDisconnection at h
-    split at h
-    · simp only [Except.ok.injEq] at h; subst h; rfl
-    · cases r <;> (try simp only [] at h) <;> split at h <;>
-        (simp only [Except.ok.injEq] at h; subst h
-         show (datalogClean _ id).1.retained = _
-         rw [datalogClean_retained]; rfl)
-  · unfold handleDisconnection at h
-    split at h
-    · simp only [Except.ok.injEq] at h; subst h; exact ⟨[], by simp, Quiet.nil⟩
-    · rename_i c hc
-      cases r <;> (try simp only [] at h) <;> split at h <;>
-        (simp only [Except.ok.injEq] at h; subst h
-         exact ⟨[.removed id c.clientId c.clean], rfl, Quiet.single rfl⟩)
+  rw [handleDisconnection_eq] at h
+  split at h
+  · simp only [Except.ok.injEq] at h; subst h; exact Boring.refl _
+  · rename_i c hc
+    refine Boring.trans ?_ (wakeParked_boring h)
+    obtain ⟨_, k2, _, _, k5, _, _, k8, _⟩ := hdFinal_fields s id c r
+    exact ⟨by rw [k8, datalogClean_retained], k2, [.removed id c.clientId c.clean], k5, Quiet.single rfl⟩
 
 theorem setLink_boring (s : RState) (l : Nat) (b : LinkBuf) : Boring s (setLink s l b) := Boring.of_eq rfl rfl rfl
 theorem pushNotifs_boring (s : RState) (l : Nat) (ns : List Notif) : Boring s (pushNotifs s l ns) :=
@@ -330,7 +335,7 @@ theorem consumeLoop_boring (id : Nat) : ∀ (fuel : Nat) (reqs skipped : List Da
     split at h
     · simp at h
     · rename_i s1 req1 st hf
-      have f1 := forwardDeviceData_boring hf
+      have f1 := (forwardDeviceData_boring hf).trans (noteTurn_boring s s1 req1)
       cases st with
       | bufferFull =>
         simp only [] at h
@@ -375,8 +380,11 @@ theorem consume_boring {s s' : RState} {b : Bool} (h : consume s = .ok (s', b)) 
     · split at h
       · simp at h
       · rename_i s2 hloop
+        split at h
+        · simp at h
+        rename_i s3 hwake
         simp only [Except.ok.injEq, Prod.mk.injEq] at h; obtain ⟨rfl, _⟩ := h
-        refine Boring.trans ?_ (consumeLoop_boring _ _ _ _ hloop)
+        refine Boring.trans ?_ ((consumeLoop_boring _ _ _ _ hloop).trans (wakeTurnMoved_boring hwake))
         exact Boring.precomp (ackDeviceData_boring _ _) rfl rfl rfl
 
 theorem handleShadow_boring {s s' : RState} {id : Nat} {f : String} (h : handleShadow s id f = .ok s') :
